@@ -69,7 +69,7 @@ UNIT = {
  'name': 'primser',
  'doc': 'Primitive::serialize / serialize_list / Dictionary::serialize / PdfStream::serialize / object framing of Storage::save '
         'emit the ISO 32000-1 7.3 spelling of the value, tokens separated as 7.2.2 requires',
- 'timeout': 900, 'rlimit': 40,
+ 'timeout': 1500, 'rlimit': 120,   # headroom: two template theorems were seen to cross 40 in some runs (same text, other work dir)
  'deviations': {
    'DEV_DICT_KEY_RAW': 'Dictionary::serialize writes a key through `Display for Name`: SOLIDUS and the raw bytes, no #xx '
                        'escaping; a key containing white-space, a delimiter or `#` does not read back (findings/dict_key_raw.md)',
